@@ -40,6 +40,7 @@ ASSUMPTIONS = ["tolerance: 2 x threshold x (T+1) with T exact for generated game
                "converge)", "diagnostic vectors are not compared"]
 CLASS_FLOORS = {"nontrivial": 0.3}
 K1 = "K1"
+K3 = "K3"
 
 
 def apply_transform(game, pi, orders, rho, forder):
@@ -294,6 +295,25 @@ def check_case(case):
                 v.fail("probability-depends-on-presentation", f"state {s} -> {pi[s]}: {pa[s]!r} vs {pb[pi[s]]!r} "
                                                               f"(tol {tolp:.3g}, transformation {t['which']})")
                 break
+    # K3: with pruning on, which states count as dead is decided by `reported probability == 0`.  A state whose
+    # true value is positive but below the solver's threshold may or may not have received its (tiny) value when
+    # the iteration stops - that depends on the sweep order, i.e. on the numbering.  If the two runs disagree on
+    # the zero set ONLY at such sub-threshold states, they condition on different games, and their rewards and
+    # final strategies legitimately (for this implementation) differ: known finding K3, matched by signature.
+    k3 = False
+    if prune:
+        za = {s for s in range(n) if pa[s] == 0}
+        zb = {s for s in range(n) if pb[pi[s]] == 0}
+        if za != zb:
+            sub = max(max(pa[s], pb[pi[s]]) for s in za ^ zb)
+            if sub <= (tolp if tolp is not None else 1e-5):
+                k3 = True
+                v.cls("zero_set_differs_below_threshold")
+                v.fail("sub-threshold-states-pruned-differently",
+                       f"pruned solve: the runs disagree on which of the states {sorted(za ^ zb)[:8]} are reported "
+                       f"with probability exactly 0 (largest value among them {sub:.3g}, below the threshold), so "
+                       f"they condition on different games (transformation {t['which']})",
+                       sig="zero-set", known=K3 if K3 in known else None)
     # strategies
     near_reach_p1 = False
     near_final = False
@@ -374,6 +394,9 @@ def check_case(case):
     cga = exact.conditioned_game(game, ra, pa, prune)
     cgb = exact.conditioned_game(tgame, rb, pb, prune)
     compare("reachability", ra, rb, pa, pb, ptol)
+    if k3:
+        v.cls("rewards_not_compared_after_zero_set_difference")
+        return v
     if not near_reach_p1:
         # every state is compared, reachable from the initial state or not: the conditioned game of a stopping
         # game is stopping as a whole, so all its values are presentation independent (small games: tolerance
